@@ -415,6 +415,24 @@ def check_C15(chk, binp):
     cbad = [i for i, r in enumerate(conc) if r is None or not r.startswith('ok')]
     chk.streams.append({'name': 'concurrent threads (2..32) on one real table: attributed answers, final values, count', 'against': 'per-key attribution check in the harness', 'cases': len(cc), 'disagreements': len(cbad)})
     chk.evaluations += len(cc)
+    # no-displacement regime with barrier-synchronised threads inserting different keys of the same bucket at the same moment:
+    # every key must stay retrievable and the count must equal the number of keys (rounds <= buckets: one key per thread and bucket)
+    rc = ['tablerace\t%d\t%d\t%d\t%d' % (nb, th, min(nb, 1500 if quick else 20000), rnd.randrange(1 << 30)) for nb, th in ([(64, 8), (500, 8), (2000, 8), (2000, 4), (997, 2), (4096, 6)] * (1 if quick else 8))]
+    race = run_cases(binp, rc, 'C15-race', shards=3)
+    rbad = [i for i, r in enumerate(race) if r is None or not r.startswith('ok')]
+    chk.streams.append({'name': 'barrier-synchronised threads insert different keys of one bucket simultaneously (no displacement possible): all keys retrievable, count exact', 'against': 'the property (retained until displaced from a FULL bucket; count = occupied slots)', 'cases': len(rc), 'disagreements': len(rbad)})
+    chk.evaluations += len(rc)
+    # displacement regime: more keys than slots, constant full-bucket replacement under contention; no lookup may ever return a
+    # value stored under another key
+    hc = ['tablehammer\t%d\t%d\t%d\t%d\t%d' % (nb, th, nk, 150000 if quick else 1500000, rnd.randrange(1 << 30)) for nb, th, nk in ([(1, 16, 12), (1, 8, 20), (2, 16, 30), (1, 4, 10)] * (1 if quick else 4))]
+    ham = run_cases(binp, hc, 'C15-hammer', shards=2)
+    hbad = [i for i, r in enumerate(ham) if r is None or not r.startswith('ok')]
+    chk.streams.append({'name': 'threads hammer a tiny table with more keys than slots (constant displacement): no lookup returns a value stored under another key; count <= capacity', 'against': 'the property (never an entry stored under another key)', 'cases': len(hc), 'disagreements': len(hbad)})
+    chk.evaluations += len(hc)
+    for i in hbad[:3]:
+        chk.violation('concurrent stores under displacement: %s (%s)' % (ham[i], hc[i]), {'kind': 'schedule', 'case': hc[i], 'code': ham[i]}, found_input=True)
+    for i in rbad[:3]:
+        chk.violation('concurrent inserts into one bucket: %s (%s)' % (race[i], rc[i]), {'kind': 'schedule', 'case': rc[i], 'code': race[i]}, found_input=True)
     chk.rule = 'seeded op sequences over 8 table geometries (1x1 .. 8x1024), keys from tiny pools / bucket-aligned families / uniform; distinct = distinct sequences'
     chk.samples += [{'case': cases[0][:200], 'code': (impl[0] or '')[:120]}, {'case': cc[0], 'code': conc[0]}]
     for i, msg in spec_bad[:3]:
@@ -916,7 +934,8 @@ def check_C19(chk, binp):
     cases = []
     for f in sel + dead[:10]:
         d = rnd.choice([1, 2, 2, 3] if quick else [1, 2, 3, 3, 4])
-        nt, nb = rnd.choice([(2, 64), (4, 256), (1, 16)])
+        # tiny tables included: buckets overflow and entries are displaced, which must not bring in any state from outside the run
+        nt, nb = rnd.choice([(2, 64), (4, 256), (1, 16), (1, 1), (1, 2), (2, 2)])
         cases.append('search\t%d\t%d\t%d\t-\t1\t%d\t%d\t-\t%s' % (rnd.randrange(1 << 30), rnd.randrange(1 << 50), d, nt, nb, f))
     impl, model = run_search_cases(chk, binp, 'C19', cases)
     impl2 = run_cases(binp, cases, 'C19-impl2', shards=5)       # a different process and partition
@@ -1201,6 +1220,54 @@ def check_C06(chk, binp):
     bfs = stream(chk, 'forced schedules (2..4 workers) on mate / no-mate positions: events + final table + schedule entries used', fs, fsi, fsm, 'extracted n-worker model (Conc.analyze_iterativeM) under the same schedule')
     nfs0 = len(cases)
     cases += fs; impl += fsi; meta += fsmeta
+    # REUSED MEMORY: P has a forced mate in 5 plies; P is searched (too shallow to see it), then the position P2 reached by a
+    # mate-keeping move and any reply (forced mate in 3 plies) is searched with the SAME artifact, in which P2 was an inner node
+    # (entries written below a check carry extended depths). Whenever the second search claims a mate its first move must keep it.
+    deep = [(f, n, keep) for f, n, keep in wins if n == 5][:10 if quick else 150]
+    succs = [(f, mv, keep[mv]) for f, n, keep in deep for mv in list(keep)[:2]]
+    sg = run_cases(MODEL, ['specgen\t' + sc for (_, _, sc) in succs], 'C06-chain-gen', timeout=900)
+    p2s = []
+    for (f, mv, sc), r in zip(succs, sg):
+        reps = [x.split('=', 1)[1] for x in (r or '').split(';') if '=' in x]
+        for p2 in rnd.sample(reps, min(len(reps), 2)):
+            p2s.append((f, p2))
+    sm2 = run_cases(MODEL, ['specmate\t%s\t5' % p2 for (_, p2) in p2s], 'C06-chain-solve', timeout=1500)
+    chains = []; chmeta = []
+    for (f, p2), r in zip(p2s, sm2):
+        if not r or not r[0].isdigit():
+            continue
+        n2 = int(r.split(' ')[0])
+        keep2 = set()
+        for it in r.split(' ', 1)[1].split(';'):
+            if '=' in it:
+                keep2.add(tuple(int(x) for x in it.split('=')[0].split('/')))
+        for d in (3, 4):
+            nt, nb = rnd.choice([(4, 256), (2, 64), (1, 16)])
+            chains.append('search\t%d\t%d\t%d\t-\t1\t%d\t%d\t-\t%s|%s' % (rnd.randrange(1 << 30), rnd.randrange(1 << 50), d, nt, nb, f, p2)); chmeta.append((p2, n2, keep2, d))
+    chains = chains[:60 if quick else 2000]; chmeta = chmeta[:len(chains)]
+    chi = run_cases(binp, chains, 'C06-chain-impl', shards=8)
+    chm = run_cases(MODEL, [c for c, m in zip(chains, chmeta) if m[3] <= 3], 'C06-chain-model', timeout=1500)
+    bch = stream(chk, 'reused memory: P (mate in 5) then P2 (mate in <= 3 after a mate-keeping move and a reply) with the same artifact: events + node trace', [c for c, m in zip(chains, chmeta) if m[3] <= 3], [o for o, m in zip(chi, chmeta) if m[3] <= 3], chm, 'extracted search model')
+    chsus = []
+    for c, m, o in zip(chains, chmeta, chi):
+        ps = parse_search(o)
+        if not ps or len(ps) != 2 or not ps[1]['best']:
+            continue
+        ev, line = ps[1]['best'][-1]
+        if ev >= 10000 and line and raw_coords(line[0]) not in m[2]:
+            chsus.append((c, m[0], line[0], o))
+    chbad = []
+    if chsus:
+        kr3 = run_cases(MODEL, ['speckeeps\t%s\t%s\t8' % (p2, mv) for (c, p2, mv, o) in chsus], 'C06-chain-keeps', timeout=1500)
+        for (c, p2, mv, o), r in zip(chsus, kr3):
+            if r == 'illegal':
+                chbad.append((c, 'reused memory: mate claimed with an illegal first move', o))
+            elif r != 'keeps':
+                chbad.append((c, 'reused memory: a winning terminal evaluation is reported for %s but the first move %s does not keep a forced mate within 8 plies (the shortest mate is %s plies)' % (p2, mv, r), o))
+    chk.streams.append({'name': 'reused memory: whenever the second search of a chain claims a mate, its first move keeps the mate', 'against': 'forced-mate solver over the extracted rules', 'cases': len(chains), 'disagreements': len(chbad)})
+    chk.evaluations += len(chains)
+    for c, msg, o in chbad[:3]:
+        chk.violation('%s: %s -> %s' % (msg, c, (o or '')[:240]), {'kind': 'history', 'case': c, 'what': msg, 'code': o}, found_input=True)
     single = [i for i, m in enumerate(meta) if m[4] == 1 and m[3] <= (3 if quick else 4)]      # the extracted model is slow on deep searches
     model = run_cases(MODEL, [cases[i] for i in single], 'C06-model')
     bm = [single[j] for j in stream(chk, 'single worker: events + node trace on mate positions', [cases[i] for i in single], [impl[i] for i in single], model, 'extracted search model')]
@@ -1314,6 +1381,9 @@ def check_C06(chk, binp):
             chk.violation('%s: %s -> %s' % (msg, c, (out or '')[:200]), {'kind': 'input', 'case': c, 'what': msg, 'code': out}, found_input=True)
         for i in bm[:3]:
             chk.violation('correspondence broken (search model) on %s' % cases[i], {'kind': 'correspondence', 'case': cases[i]}, found_input=False)
+    if not (incomplete or wrongmove or unsound or chbad) and bch:
+        for j in bch[:2]:
+            chk.violation('correspondence broken (search model, reused memory chain)', {'kind': 'correspondence', 'stream': 'C06-chain'}, found_input=False)
     if not (incomplete or wrongmove or unsound) and bfs:
         for j in bfs[:3]:
             chk.violation('correspondence broken (n-worker model under a forced schedule) on %s: code %s model %s' % (fs[j], (fsi[j] or '')[:300], (fsm[j] or '')[:300]), {'kind': 'correspondence', 'case': fs[j], 'code': fsi[j], 'model': fsm[j]}, found_input=False)
@@ -1336,7 +1406,8 @@ def check_C17(chk, binp):
             succ = keep[mv]
             for d in (nalt, nalt + 1, nalt + 2):
                 for workers in [1] + ([rnd.choice([2, 4, 8])] if rnd.random() < 0.3 else []):
-                    cases.append('search\t%d\t%d\t%d\t-\t%d\t%d\t%d\t%s\t%s' % (rnd.randrange(1 << 30), rnd.randrange(1 << 50), d, workers, 4, 256, succ, f))
+                    nt, nb = rnd.choice([(4, 256), (4, 256), (2, 8), (1, 4)])
+                    cases.append('search\t%d\t%d\t%d\t-\t%d\t%d\t%d\t%s\t%s' % (rnd.randrange(1 << 30), rnd.randrange(1 << 50), d, workers, nt, nb, succ, f))
                     meta.append((f, nalt, keep, mv, succ, d, workers))
     cases = cases[:400 if quick else 20000]; meta = meta[:len(cases)]
     # the recorded position was really SEARCHED before with the same memory (so it owns deep table entries): chain Q | P where Q is the
@@ -1352,7 +1423,10 @@ def check_C17(chk, binp):
                 continue
             nalt = min(alts)
             for d in (max(nalt, dm), max(nalt, dm) + 1):
-                chains.append('search\t%d\t%d\t%d\t-\t1\t%d\t%d\t-\t%s|%s' % (rnd.randrange(1 << 30), rnd.randrange(1 << 50), d, 4, 256, succ, f))
+                # table geometry varies: with few slots the first search leaves the table (nearly) full, which must not make
+                # the second search forget what the game has recorded
+                nt, nb = rnd.choice([(4, 256), (4, 256), (1, 1), (1, 4), (2, 8), (1, 16)])
+                chains.append('search\t%d\t%d\t%d\t-\t1\t%d\t%d\t-\t%s|%s' % (rnd.randrange(1 << 30), rnd.randrange(1 << 50), d, nt, nb, succ, f))
                 cmeta.append((f, nalt, keep, mv, succ, d, 1))
     chains = chains[:120 if quick else 4000]; cmeta = cmeta[:len(chains)]
     ci = run_cases(binp, chains, 'C17-chain-impl', shards=8)
@@ -1391,7 +1465,7 @@ def check_C17(chk, binp):
     for c in cases:
         chk.distinct.add(c.split('\t', 2)[2])
     chk.extra['workers_used'] = hist([m[6] for m in meta])
-    chk.rule = 'solver-decided positions with at least two mate-preserving first moves; each chosen successor recorded in the artifact history through the hook; depths n..n+2; 1 worker (exact model equality) and some 2..8 worker runs'
+    chk.rule = 'solver-decided positions with at least two mate-preserving first moves; each chosen successor recorded in the artifact history through the hook; depths n..n+2; 1 worker (exact model equality) and some 2..8 worker runs; chains in which the recorded position was searched before with the same memory; tables from 1x1 (8 slots, full after the first search) to 4x256'
     if cases:
         chk.samples += [{'case': cases[0], 'code': impl[0]}]
     for i, msg in bad[:4]:
@@ -1861,6 +1935,16 @@ def check_C16(chk, binp):
         if not offered <= legalset:
             vbad.append((f, 'offers a move that is not legal there: %s' % sorted(offered - legalset)))
     chk.streams.append({'name': 'book positions with other castling-right / en-passant state: only legal moves offered', 'against': 'extracted rules specification', 'cases': len(var), 'disagreements': len(vbad)})
+    # the SAME position with other move counters (reached later in a game, by another history): the counters are not part of the
+    # position, so the book must offer exactly what it offers for the position as it occurs in the games
+    cv = []; cvo = []
+    for f, o in rnd.sample(list(zip(fens, offers)), min(len(fens), 150 if quick else 3000)):
+        p = f.split(' ')
+        for h, fm in ((0, 6), (rnd.randrange(0, 60), rnd.randrange(6, 120)), (int(p[4]), int(p[5]) + rnd.choice([1, 5, 30]))):
+            cv.append(' '.join(p[:4] + [str(h), str(fm)])); cvo.append(o)
+    co = run_cases(binp, ['book\t' + f for f in cv], 'C16-cbook')
+    cbad = [(f, o, e) for f, o, e in zip(cv, co, cvo) if set((o or 'none').split(';')) != set((e or 'none').split(';'))]
+    chk.streams.append({'name': 'book positions with other move counters: the same offers', 'against': 'the offers for the position as it occurs in the games (the counters are not part of the position)', 'cases': len(cv), 'disagreements': len(cbad)})
     # the extracted model of the book builder (tokenizer, SAN parse, FIRST matching legal move, ten plies) on the same games
     raw = book_games_raw()
     rsel = raw if not quick else random.Random(chk.seed).sample(raw, min(len(raw), 500))
@@ -1889,13 +1973,15 @@ def check_C16(chk, binp):
         if (not quick and offered != mby[k]) or (quick and not mpos[f] <= offered):
             mbad2.append((f, sorted(offered), sorted(mby[k])))
     chk.streams.append({'name': 'book entries recorded by the extracted model of the builder (Book.game_entries) vs the real book offers', 'against': 'extracted implementation model', 'cases': len(rsel), 'disagreements': len(merr) + len(mbad2)})
-    chk.evaluations += len(fens) + len(var) + len(rsel)
+    chk.evaluations += len(fens) + len(var) + len(rsel) + len(cv)
+    for f, o, e in cbad[:3]:
+        chk.violation('the book offers %s for %s but %s for the same position with the counters of the games' % (o, f, e), {'kind': 'input', 'fen': f, 'offered': o, 'offered_with_game_counters': e}, found_input=True)
     chk.extra['unresolved_tokens'] = unresolved[:5]
     chk.extra['distinct_book_positions'] = len(fens)
     chk.extra['exhaustive'] = not quick
     for f in fens:
         chk.distinct.add(f)
-    chk.rule = 'all games of book/ (thorough) or a seeded sample of 500 (quick): movetext tokenised as the build script does, each token resolved by the independent SanSpec over the rules; every position of the first ten plies looked up in the real book; variants of those positions with fewer castling rights / without the en-passant target'
+    chk.rule = 'all games of book/ (thorough) or a seeded sample of 500 (quick): movetext tokenised as the build script does, each token resolved by the independent SanSpec over the rules; every position of the first ten plies looked up in the real book; variants of those positions with fewer castling rights / without the en-passant target / with other move counters'
     chk.samples += [{'fen': fens[len(fens) // 2], 'offered': offers[len(fens) // 2], 'recorded': sorted(bykey[keys[len(fens) // 2]])}]
     if unresolved:
         chk.violation('book token not an admissible spelling of exactly one legal move: %s' % (unresolved[0],), {'kind': 'input', 'unresolved': unresolved[:5]}, found_input=True)
